@@ -128,7 +128,9 @@ class ConstantStreamGenerator(Elaboratable):
             datum = in_data[0:datum_width_bytes]
             del in_data[0:datum_width_bytes]
 
-            # ... convert it into an integer ...
+            # ... convert it into an integer; a short final big-endian datum keeps its bytes in the upper lanes ...
+            if self._endianness == "big":
+                datum = datum.ljust(datum_width_bytes, b"\0")
             datum = int.from_bytes(datum, byteorder=self._endianness)
 
             # ... and squish it into our output.
@@ -210,6 +212,13 @@ class ConstantStreamGenerator(Elaboratable):
 
 
 
+        def valid_mask(byte_count):
+            """ Valid bits for a word carrying ``byte_count`` bytes: low lanes first; upper lanes for big-endian data. """
+            lanes = len(self.stream.valid)
+            ones  = (1 << byte_count) - 1
+            return Const(ones << (lanes - byte_count) if self._endianness == "big" else ones, lanes)
+
+
         #
         # Controller.
         #
@@ -268,7 +277,7 @@ class ConstantStreamGenerator(Elaboratable):
 
                         # If we're not enforcing a max length, always use our leftover bits-per-word.
                         if not self._max_length_width:
-                            m.d.comb += self.stream.valid.eq(Const(1).replicate(valid_bits_last_word))
+                            m.d.comb += self.stream.valid.eq(valid_mask(valid_bits_last_word))
 
                         # Otherwise, do our complex case.
                         else:
@@ -278,7 +287,7 @@ class ConstantStreamGenerator(Elaboratable):
                             ending_due_to_max_length  = (bytes_sent + bytes_per_word >= max_length)
 
                             # ... and figure out the valid bits based us running out of data...
-                            valid_due_to_data_length  = Const(1).replicate(valid_bits_last_word)
+                            valid_due_to_data_length  = valid_mask(valid_bits_last_word)
 
                             # ... and due to our maximum length. Finding this arithmetically creates
                             # difficult-to-optimize code, and bytes_per_word is going to be small, so
@@ -293,7 +302,7 @@ class ConstantStreamGenerator(Elaboratable):
 
                                     # ... with the appropriate amount of valid bits.
                                     with m.Case(i):
-                                        m.d.comb += valid_due_to_max_length.eq(Const(1).replicate(i))
+                                        m.d.comb += valid_due_to_max_length.eq(valid_mask(i))
 
 
                             # Our most complex logic is when both of our end conditions are met; we'll need
